@@ -69,6 +69,7 @@ class SceneSpec:
     raw_files: bool = False  # also write a (tiny) raw file for every non-lidar sensor, so that load_raw_data=True works
     sensor_ego_offset: Optional[Tuple[float, float, float]] = None  # non-lidar sensors captured at a slightly other ego pose
     record_stamp_offset_us: int = 0  # sensor records stamped this much before their sample (sweep start vs key-frame time)
+    instance_names: bool = False  # write the optional T4 column instance.instance_name ("<prefix>::<readable id>")
 
 
 def tok(kind: str, i: Any) -> str:
@@ -224,6 +225,8 @@ def write_dataset(root: str, spec: SceneSpec, tables: Optional[Dict[str, list]] 
                 "last_annotation_token": toks[-1],
             }
         )
+        if spec.instance_names:
+            instance[-1]["instance_name"] = f"{inst_cat[inst].split('.')[-1]}::{inst_cat[inst].split('.')[-1]}_{len(instance)}"
     out = dict(
         category=category,
         attribute=attribute,
